@@ -349,7 +349,7 @@ sys.exit(1 if d else 0)
 def serial_monitor(pr):
     from . import native
     names = ['3SGB-subset', '1HPX'] if pr.tier == 'quick' else ['3SGB-subset', '1HPX', '4DFR', '3SGB', '1FTJ-Chain-A']
-    kinds = ['reversed', 'shuffled'] if pr.tier == 'quick' else ['reversed', 'shuffled', 'zero', 'hy36-desc']
+    kinds = ['reversed', 'zero'] if pr.tier == 'quick' else ['reversed', 'shuffled', 'zero', 'hy36-desc']
     ev, viol = 0, []
     for name in names:
         lines = native.pdb_lines(name)
